@@ -6,43 +6,43 @@ ROOT = os.path.dirname(os.path.dirname(os.path.abspath(__file__)))
 # id -> (technique, level text, level note, design ref)
 CHECKS = {
  "C01": ("property-based testing (proptest generators, scripted RNG + virtual clock, hook-observed work bound) with shrinking",
-         "Generated-input search: validated machine sets x histories with batches, unknown ids, non-monotone virtual clock, scripted and seeded random streams; oracle = no panic/overflow/abort, random-word budget, and hook-observed machine steps <= 4(events+1)(machines+1) per call. A pass means no counterexample among the generated cases.",
-         "Trusts the verif hook's step log to count transitions; overflow checks compiled into maybenot by the harness profile; loops that neither draw randomness nor log a step are only caught by the watchdog.",
+         "Generated-input search: validated machine sets x histories with batches, unknown ids, non-monotone virtual clock, scripted and seeded random streams; oracle = no panic/overflow/abort, random-word budget, and hook-observed machine steps <= 4(events+1)(machines+1) per call. A pass means no counterexample among the generated cases. A `capi` profile also runs histories of deterministic machines through the C API (canary-guarded buffer, garbage-initialised count) and compares every call with the Rust framework, which is then held to the property on the same history. Machines that validation should reject are offered too (what it accepts is run), as are sets of more than 64 machines.",
+         "Trusts the verif hook's step log to count transitions; overflow checks compiled into maybenot by the harness profile; loops that neither draw randomness nor log a step are only caught by the watchdog. The C-API pass needs deterministic machines (the C API owns its RNG and clock).",
          "DESIGN.md section 4 C01"),
  "C02": ("property-based testing with an independent recount monitor (exact integer fraction comparison)",
-         "Generated single-event histories over machine sets with all budget/fraction corners; every returned SendPadding is judged against NormalSent/PaddingSent counts recomputed from the fed events only, fractions compared exactly. No counterexample among generated cases.",
+         "Generated single-event histories over machine sets with all budget/fraction corners; every returned SendPadding is judged against NormalSent/PaddingSent counts recomputed from the fed events only, fractions compared exactly. No counterexample among generated cases. A `capi` profile also runs histories of deterministic machines through the C API (canary-guarded buffer, garbage-initialised count) and compares every call with the Rust framework, which is then held to the property on the same history.",
          "The oracle is independent of the framework's counters; 'limit set' means > 0; batches are covered by C05.",
          "DESIGN.md section 4 C02"),
  "C03": ("property-based testing with an independent blocked-time recount over a virtual clock",
-         "Generated single-event histories with arbitrary BlockingBegin/End placement and non-monotone virtual clock; blocked and elapsed time recomputed in integer microseconds from the inputs, shares compared exactly with the f64 limits.",
-         "Virtual clock values < 2^50 so no duration saturates and the framework's single division is the only rounding (it can only err towards denying).",
+         "Generated single-event histories with arbitrary BlockingBegin/End placement and non-monotone virtual clock; blocked and elapsed time recomputed in integer microseconds from the inputs, shares compared exactly with the f64 limits. A second profile runs the same budgets through the crate's own std::time::Duration implementation with a nanosecond virtual clock; there the share is judged exactly on the nanosecond integers with a relative margin of 1e-9.",
+         "Virtual clock values < 2^50 so no duration saturates and the framework's single division is the only rounding (it can only err towards denying). The std::time::Duration pass tolerates the two float conversions of as_secs_f64 (margin 1e-9), so only a clear excess is reported. The C API's own clock is covered by C20's clock cases.",
          "DESIGN.md section 4 C03"),
  "C04": ("property-based testing of an output-contract predicate (incl. heavy-tailed/unbounded distributions)",
-         "Generated machine sets x batch histories; per call: distinct existing machine ids, kind/flags defined by some state, timeouts/durations <= 24 h, nothing after END.",
+         "Generated machine sets x batch histories; per call: distinct existing machine ids, kind/flags defined by some state, timeouts/durations <= 24 h, nothing after END. A `capi` profile also runs histories of deterministic machines through the C API (canary-guarded buffer, garbage-initialised count) and compares every call with the Rust framework, which is then held to the property on the same history. Batches of up to 700 events, more than 64 machines, the same machine listed twice.",
          "END status read from the hook snapshot; durations are exact virtual-clock microseconds.",
          "DESIGN.md section 4 C04"),
  "C05": ("model-based testing: lock-step reference semantics, bounded-exhaustive enumeration of histories and draw outcomes for small machine families + random lock-step + twin/clone runs",
          "An independent reference interpreter of the documented operational semantics is run in lock-step with the framework (actions and state after every call): exhaustively over all histories up to a depth bound and every outcome of every draw for small machine families, and on random larger machines/histories; twin instances and clones must agree.",
-         "The model's random-draw discipline (one 32-bit word per lookup of a non-empty transition list) is pinned to rand 0.8.8 and self-tested; where documentation is silent the model follows the pinned tree (listed in src/model.rs).",
+         "The model's random-draw discipline (one 32-bit word per lookup of a non-empty transition list) is pinned to rand 0.8.8 and self-tested; where documentation is silent the model follows the pinned tree (listed in src/model.rs). The model draws Uniform samples (constants included) itself; the other ten families' samples come from the crate's Dist::sample (C13 judges those).",
          "DESIGN.md section 4 C05"),
  "C06": ("exhaustive enumeration of the draw's 2^23 outcomes per generated probability vector (property-based generation of vectors)",
-         "For each generated validated probability vector, State::sample_state is evaluated on all 2^23 values of the uniform draw; per-target counts must equal p_i*2^23 exactly for dyadic vectors and within 1+i otherwise; framework-level probes tie the sampled target to the dispatched state/END/SIGNAL.",
+         "For each generated validated probability vector, State::sample_state is evaluated on all 2^23 values of the uniform draw; per-target counts must equal p_i*2^23 exactly for dyadic vectors and within 1+i otherwise; framework-level probes tie the sampled target to the dispatched state/END/SIGNAL. Also: vectors validation must reject, the states of a machine that went through its string form (shares and all 13 event slots), delivery probes for every external event kind / id combination and for 1-4 signallers, a fleet of 65 540 machines.",
          "The mapping word -> f32 draw of rand 0.8.8 is self-tested at start-up; vectors are sampled, the draw is enumerated completely.",
          "DESIGN.md section 4 C06"),
  "C07": ("property-based testing with a limit monitor over the hook's step log",
-         "Generated machines with limited actions x histories (single events and batches, own/foreign/unknown-id completions, self-loops, round trips); a monitor derives the remaining limit of each stay from the definition and the reported completions and judges schedulings, withdrawals, LimitReached and returned actions.",
+         "Generated machines with limited actions x histories (single events and batches, own/foreign/unknown-id completions, self-loops, round trips); a monitor derives the remaining limit of each stay from the definition and the reported completions and judges schedulings, withdrawals, LimitReached and returned actions. A `capi` profile also runs histories of deterministic machines through the C API (canary-guarded buffer, garbage-initialised count) and compares every call with the Rust framework, which is then held to the property on the same history.",
          "Trusts the hook's step log and snapshot; budgets are unlimited in this domain so only the per-state limit can withhold an action.",
          "DESIGN.md section 4 C07"),
  "C08": ("property-based testing with a u128 counter model driven by the step log",
-         "Generated counter specifications (all 9 kinds, values at 0/1/2^64 corners) x histories; a register model predicts every value and every CounterZero delivery ('exactly when') and checks precedence of the CounterZero action.",
+         "Generated counter specifications (all 9 kinds, values at 0/1/2^64 corners) x histories; a register model predicts every value and every CounterZero delivery ('exactly when') and checks precedence of the CounterZero action. A `capi` profile also runs histories of deterministic machines through the C API (canary-guarded buffer, garbage-initialised count) and compares every call with the Rust framework, which is then held to the property on the same history. 65-140 identical machines whose counters reach zero in the same call.",
          "The step log supplies which states were entered in which order; arithmetic, predictions and final values are the model's.",
          "DESIGN.md section 4 C08"),
  "C09": ("property-based testing with a signal-delivery monitor over the step log",
-         "Generated signalling machine sets x multi-call batch histories; per call the set of signallers and the deliveries per live machine are read from the log and compared with the statement's rules.",
+         "Generated signalling machine sets x multi-call batch histories; per call the set of signallers and the deliveries per live machine are read from the log and compared with the statement's rules. A `capi` profile also runs histories of deterministic machines through the C API (canary-guarded buffer, garbage-initialised count) and compares every call with the Rust framework, which is then held to the property on the same history. More than 64 machines; one call of hundreds of events.",
          "Trusts the hook's marking of the delivery round; rounds in calls without a signaller are left to C05.",
          "DESIGN.md section 4 C09"),
  "C10": ("metamorphic property-based testing (combined run vs solo run on the projected history)",
-         "A deterministic subject machine is run next to 1..4 arbitrary neighbours and alone on the projected history; its per-call actions must be identical.",
+         "A deterministic subject machine is run next to 1..4 arbitrary neighbours and alone on the projected history; its per-call actions must be identical. Also 33-100 identical neighbours, and the subject alone / next to neighbours through the C API.",
          "Subject has probability-1 transitions and constant distributions; no SIGNAL targets; framework fractions 0.",
          "DESIGN.md section 4 C10"),
  "C11": ("property-based testing: round-trip oracle, structure-aware string/zlib/bincode mutation, bombs under a counting allocator",
@@ -67,7 +67,7 @@ CHECKS = {
          "DESIGN.md section 4 C15"),
  "C16": ("property-based testing with a contract monitor (framework replay + fire log) for blocking",
          "Each side's events are replayed through a framework seeded like the simulator's to recover the actions; blocking expiry and bypass permission are derived per the contract and every BlockingBegin/End and TunnelSent is judged against them.",
-         "Relies on C05 (determinism) for the replay and on the hook's fire log for same-instant ordering; a packet leaving exactly at the expiry instant is not counted as inside the period.",
+         "Relies on C05 (determinism) for the replay and on the hook's fire log for same-instant ordering; a packet leaving exactly at the expiry instant is not counted as inside the period. A packet leaving exactly at an expiry instant obliges the blocking to end there: if a BlockOutgoing carried out at that instant extends it instead and no BlockingEnd was reported, neither order of the coinciding things explains the trace.",
          "DESIGN.md section 4 C16"),
  "C17": ("property-based testing with a contract monitor (framework replay + fire log) for action timers",
          "Per machine the pending action (kind, due, flags) follows the replayed actions; every logged firing must be the current pending action at its due time, every PaddingSent/BlockingBegin the report of exactly one firing at that time, nothing superseded fires, nothing due is passed.",
@@ -82,8 +82,8 @@ CHECKS = {
          "Twin runs can refute but not prove reproducibility; SimEvent equality is the derived PartialEq.",
          "DESIGN.md section 4 C19"),
  "C20": ("differential property-based testing of the extern \"C\" API against the Rust API, canary-guarded buffers, counting allocator",
-         "Deterministic machines x event batches through maybenot_on_events vs Framework::trigger_events, field for field; count <= num_machines, canaries intact; start arguments vs the Rust API's verdict and error codes; null pointers; heap growth across identical start/stop cycles.",
-         "Clock-independent machines only (the C API owns clock and RNG); CR-containing strings only required not to crash.",
+         "Deterministic machines x event batches through maybenot_on_events vs Framework::trigger_events, field for field; count <= num_machines, canaries intact; start arguments vs the Rust API's verdict and error codes; null pointers; heap growth across identical start/stop cycles. Clock cases: a blocking-fraction limit, real sleeps, judged only when the measured bounds clear the limit by a wide margin. Batches of up to 1100 events, rejected calls in the middle of a run, duplicate machine lines, garbage in unused event members.",
+         "Clock-independent machines only (the C API owns clock and RNG); CR-containing strings only required not to crash. The differential uses clock-independent machines; the clock cases are the only time-dependent ones.",
          "DESIGN.md section 4 C20"),
 }
 BUILT = set(open(os.path.join(ROOT,'tools','built.txt')).read().split())
